@@ -269,3 +269,24 @@ Proof.
   destruct (aligned_to 4 (m_addr m)) eqn:Ea; cbn [negb]; [|discriminate]. intros _.
   apply aligned_to_spec in Ea. split; [rewrite N.add_0_r; exact Ea|lia].
 Qed.
+
+(* util/align.rs tests alignment with a mask: [x & (a-1) == 0], after debug_assert!(a.is_power_of_two()).  For a
+   power of two the mask test is the divisibility test the models use; for anything else the Rust code fails its
+   debug assertion (checked builds) or tests a different predicate (optimised builds), so the statements about
+   [slice]/[read] carry [is_pow2 align] - the documented precondition of the API. *)
+Definition is_pow2 (a : N) : Prop := exists k, a = 2 ^ k.
+Lemma pow2_mask_is_mod a x : is_pow2 a -> (N.land x (a - 1) =? 0) = aligned_to a x.
+Proof.
+  intros [k ->]. unfold aligned_to. replace (2 ^ k - 1) with (N.ones k) by (rewrite N.ones_equiv, N.sub_1_r; reflexivity).
+  rewrite N.land_ones. reflexivity.
+Qed.
+Lemma slice_safe_view_pow2 v rva min_size align r : is_pow2 align -> placed (v_addr v) (v_len v) ->
+  slice v rva min_size align = Ok r -> slice_safe (v_addr v) (v_len v) min_size align r.
+Proof. intros _. apply slice_safe_view. Qed.
+Lemma read_safe_view_pow2 v va min_size align r : is_pow2 align -> placed (v_addr v) (v_len v) ->
+  read v va min_size align = Ok r -> slice_safe (v_addr v) (v_len v) min_size align r.
+Proof. intros _. apply read_safe_view. Qed.
+Lemma slice_no_fault_pow2 v rva min_size align : is_pow2 align -> no_fault (slice v rva min_size align).
+Proof. intros _. apply slice_no_fault. Qed.
+Lemma read_no_fault_pow2 v va min_size align : is_pow2 align -> no_fault (read v va min_size align).
+Proof. intros _. apply read_no_fault. Qed.
